@@ -52,7 +52,7 @@ func runC02(c *Ctx) {
 	for _, fn := range p.Funcs {
 		for _, call := range Calls(fn) {
 			cc := call.Common()
-			if !cc.IsInvoke() || cc.Method.Name() != "addProtocolRequestHeaders" {
+			if !cc.IsInvoke() || N(cc.Method) != "addProtocolRequestHeaders" {
 				continue
 			}
 			nSites++
@@ -69,15 +69,15 @@ func runC02(c *Ctx) {
 					var recv ssa.Value
 					lc := l.Call.Common()
 					switch {
-					case lc.IsInvoke() && lc.Method.Name() == "Name":
+					case lc.IsInvoke() && N(lc.Method) == "Name":
 						recv = lc.Value
-					case lc.StaticCallee() != nil && lc.StaticCallee().Name() == "Name" && len(lc.Args) == 1:
+					case lc.StaticCallee() != nil && N(lc.StaticCallee()) == "Name" && len(lc.Args) == 1:
 						recv = lc.Args[0]
 					default:
 						return false
 					}
 					f := LoadedField(recv)
-					if f == nil || f.Name() != field || !PathOfHasSide(recv, "server") {
+					if f == nil || N(f) != field || !PathOfHasSide(recv, "server") {
 						return false
 					}
 				}
@@ -126,7 +126,7 @@ func runC02(c *Ctx) {
 				continue
 			}
 			fl := LoadedField(lk.X)
-			if fl == nil || fl.Name() != setField {
+			if fl == nil || N(fl) != setField {
 				continue
 			}
 			if keyOK(lk.Index) {
@@ -140,16 +140,16 @@ func runC02(c *Ctx) {
 			if !spdFields[w.Field] || w.Fresh {
 				continue
 			}
-			switch w.Field.Name() {
+			switch N(w.Field) {
 			case "respCompression":
 				continue // response side, set when the backend's headers are seen (C03)
 			}
 			if !p.OnlyCalledWithin(fn, validate) {
-				c.Bad("C02.2", FuncName(fn), "store:server."+w.Field.Name(), w.Store.Pos(), "the negotiated server "+w.Field.Name()+" is stored outside validation")
+				c.Bad("C02.2", FuncName(fn), "store:server."+N(w.Field), w.Store.Pos(), "the negotiated server "+N(w.Field)+" is stored outside validation")
 				continue
 			}
 			st := w.Store
-			switch w.Field.Name() {
+			switch N(w.Field) {
 			case "protocol":
 				// value = X.serverHandler(o); dominated by membership of X in methodConf.protocols
 				good := false
@@ -175,7 +175,7 @@ func runC02(c *Ctx) {
 				good := true
 				for _, l := range Origins(st.Val) {
 					switch {
-					case l.Kind == "load" && l.Field != nil && l.Field.Name() == "codec" && strings.Contains(l.Path, ".client."):
+					case l.Kind == "load" && l.Field != nil && N(l.Field) == "codec" && strings.Contains(l.Path, ".client."):
 						kinds = append(kinds, "client's")
 						if !memberFact(st.Block(), "codecNames", func(k ssa.Value) bool {
 							f := LoadedFieldOrField(k)
@@ -202,7 +202,7 @@ func runC02(c *Ctx) {
 							for _, f := range p.FactsAtInter(st.Block()) {
 								if cmp, ok := f.AsCmp(); ok && cmp.Op == token.EQL {
 									if k, isK := ConstInt(cmp.Y); isK {
-										if obj, ok := p.Root.Pkg.Scope().Lookup("ProtocolREST").(*types.Const); ok && obj.Val().ExactString() == itoa(int(k)) {
+										if obj, ok := p.Lookup("ProtocolREST").(*types.Const); ok && obj.Val().ExactString() == itoa(int(k)) {
 											rest = true
 										}
 									}
@@ -211,7 +211,7 @@ func runC02(c *Ctx) {
 							if s != "json" || !rest {
 								good = false
 							}
-						} else if f := LoadedField(name); f != nil && f.Name() == "preferredCodec" {
+						} else if f := LoadedField(name); f != nil && N(f) == "preferredCodec" {
 							kinds = append(kinds, "preferred")
 						} else {
 							good = false
@@ -226,7 +226,7 @@ func runC02(c *Ctx) {
 			case "reqCompression":
 				good := false
 				for _, l := range Origins(st.Val) {
-					if l.Kind == "load" && l.Field != nil && l.Field.Name() == "reqCompression" && strings.Contains(l.Path, ".client.") {
+					if l.Kind == "load" && l.Field != nil && N(l.Field) == "reqCompression" && strings.Contains(l.Path, ".client.") {
 						good = memberFact(st.Block(), "compressorNames", func(k ssa.Value) bool {
 							f := LoadedFieldOrField(k)
 							return f == comprF
